@@ -10,6 +10,9 @@ RC = "cactusref::rc::Rc"
 WEAK = "cactusref::rc::Weak"
 
 
+ABSENT = ("absent",)
+
+
 def link_key(key, st):
     """(kind index or None, target box pointer) of a link-valued expression."""
     if key[0] == "ref":
@@ -27,7 +30,8 @@ class TableOps:
     additions add exactly one, subtraction is checked and never stores a zero count."""
     id = "SYM"
 
-    def __init__(self):
+    def __init__(self, closures=None):
+        self.closures = closures
         self.sites = {"add": set(), "sub": set()}
 
     def on_pure(self, eng, ev, st):
@@ -40,12 +44,37 @@ class TableOps:
 
     def on_tbl(self, eng, ev, st):
         tb = ev.get("table")
+        if ev.op == "and_modify" and len(ev.args) >= 2 and self.closures is not None:
+            for f in st.flags:
+                if f[0] == "entry" and (ev.recv == f[1] or sub(ev.recv, f[1])) and f[2] is not None:
+                    cl = self.closures.run(ev.args[1], params={2: ("param", 2)})
+                    amt = None
+                    if cl is not None and len(cl["stores"]) == 1 and len(cl["effects"]) == 1:
+                        sto = cl["stores"][0]
+                        old = mk_deref(("param", 2))
+                        v = sto.value
+                        if sto.place == old and v[0] == "bin" and v[1] in ("Add", "AddUnchecked"):
+                            amt = v[3] if v[2] == old else (v[2] if v[3] == old else None)
+                    return add(st, ("entry_mod", f[1], amt))
+            return None
         if ev.op in ("or_insert", "or_default", "or_insert_with"):
             for f in st.flags:
                 if f[0] == "entry" and (ev.recv == f[1] or sub(ev.recv, f[1])):
                     init = ev.args[1] if ev.op == "or_insert" and len(ev.args) > 1 else ("const", "0", None)
+                    mod = [g for g in st.flags if g[0] == "entry_mod" and g[1] == f[1]]
+                    if mod and f[2] is not None:
+                        # entry(k).and_modify(|c| *c += a).or_insert(a): one addition of `a`
+                        amt = mod[0][2]
+                        kind, target = link_key(f[3], st)
+                        self.sites["add"].add(ev.b)
+                        eng.obl("SYM-4", "add", ev.b)
+                        if amt is None or not is_const(amt, 1) or init != amt:
+                            eng.violate("SYM-4", "insert-not-plus-one", "recording a link does not add exactly one to its count (and_modify by %s, first value %s)" % (show(amt) if amt else "?", show(init)[:40]), ev.b, st)
+                        return add(st, ("top", "add", f[2], kind, target, amt))
                     return add(st, ("slot", ev.res, f[2], f[3], init))
             return None
+        if ev.op == "get_mut" and tb is not None and len(ev.args) >= 2:
+            return add(st, ("mutslot", ev.res, tb, ev.args[1]))
         if tb is None:
             return None
         if ev.op == "remove" and len(ev.args) >= 2:
@@ -84,7 +113,38 @@ class TableOps:
             return add(st, ("top", "clear", tb, None, None, None))
         return None
 
+    def on_variant(self, eng, st, inner, v, b):
+        # get_mut(k) returned None: there is no record to lower (the subtraction is vacuous)
+        if v == "0" and inner[0] == "call" and inner[2].startswith("hashbrown::HashMap") and inner[2].endswith("::get_mut") and len(inner[3]) >= 2:
+            tb = table_of(inner[3][0])
+            if tb is not None:
+                kind, target = link_key(inner[3][1], st)
+                return add(st, ("top", "sub", tb, kind, target, ABSENT))
+        return None
+
     def on_store(self, eng, ev, st):
+        for f in st.flags:
+            if f[0] == "mutslot":
+                payload = mk_field(("variant", f[1], "Some", 1), "0", "")
+                if ev.place == mk_deref(payload):
+                    tb, key = f[2], f[3]
+                    kind, target = link_key(key, st)
+                    old = mk_deref(payload)
+                    v = ev.value
+                    eng.obl("SYM-4", "sub:in-place", ev.b)
+                    self.sites["sub"].add(ev.b)
+                    if v[0] == "bin" and v[1] in ("Sub", "SubUnchecked") and v[2] == old:
+                        amt = v[3]
+                        strictly = any(g[0] == "cmp" and ((g[1] == "Gt" and g[2] == old and g[3] == amt and g[4]) or (g[1] == "Lt" and g[2] == amt and g[3] == old and g[4])
+                                                          or (g[1] == "Le" and g[2] == old and g[3] == amt and not g[4]) or (g[1] == "Ge" and g[2] == amt and g[3] == old and not g[4])) for g in st.flags)
+                        if not strictly:
+                            eng.violate("SYM-4", "may-store-zero", "a link count is lowered in place without a preceding `count > amount` test: the entry can reach zero (and stay in the table) or wrap", ev.b, st)
+                        return add(st, ("top", "sub", tb, kind, target, amt))
+                    if v[0] == "bin" and v[1] in ("Add", "AddUnchecked") and (v[2] == old or v[3] == old):
+                        amt = v[3] if v[2] == old else v[2]
+                        return add(st, ("top", "add", tb, kind, target, amt))
+                    eng.violate("SYM-4", "link-count-overwritten", "a link count in the table of %s is overwritten with %s instead of being adjusted" % (show(tb), show(v)[:80]), ev.b, st)
+                    return None
         for f in st.flags:
             if f[0] == "slot" and ev.place == mk_deref(f[1]):
                 tb, key, init = f[2], f[3], f[4]
@@ -111,6 +171,19 @@ class TableOps:
                 g = f[1]
                 if table_of(g[3][0]) == tb and len(g[3]) > 1 and _same_key(g[3][1], key):
                     return f[2]
+        # `match get_mut(k) { Some(c) if *c > n => *c -= n, Some(_) => remove(k), .. }`:
+        # the entry is deleted on the path where count <= n, i.e. a saturating subtraction of n
+        for f in st.flags:
+            if f[0] == "cmp":
+                op, x, y, truth = f[1], f[2], f[3], f[4]
+                g = _tbl_get_in(x)
+                gy = _tbl_get_in(y)
+                if g is not None and table_of(g[3][0]) == tb and _same_key(g[3][1], key):
+                    if (op == "Gt" and not truth) or (op == "Le" and truth):
+                        return y
+                if gy is not None and table_of(gy[3][0]) == tb and _same_key(gy[3][1], key):
+                    if (op == "Lt" and not truth) or (op == "Ge" and truth):
+                        return x
         return None
 
 
@@ -126,7 +199,7 @@ def _tbl_get_in(e):
     found = []
 
     def pred(x):
-        if x[0] == "call" and x[2].startswith("hashbrown::HashMap") and x[2].endswith("::get") and x[3] and table_of(x[3][0]) is not None:
+        if x[0] == "call" and x[2].startswith("hashbrown::HashMap") and x[2].rsplit("::", 1)[1] in ("get", "get_mut") and x[3] and table_of(x[3][0]) is not None:
             found.append(x)
             return True
         return False
@@ -171,6 +244,8 @@ class AdoptSchema:
             eng.violate("SYM-1" if op == "add" else "SYM-2", "no-self-handle-test", "%s does not distinguish adoption through the same handle from adoption through another handle" % self.which, ev.b, st)
             return None
         want = sorted(want, key=repr)
+        # a record that is absent needs no subtraction: any amount matches
+        ops = sorted(((o[0], o[1], o[2], o[3], one if o[4] == ABSENT else o[4]) for o in ops), key=repr)
         if ops != want:
             def fmt(o):
                 return "%s %s(%s) in table of %s by %s" % (o[0], KIND_NAMES.get(o[2], "?"), show(o[3]) if o[3] else "?", show(o[1]), show(o[4]) if o[4] else "?")
@@ -220,7 +295,7 @@ class Purge:
         got = set()
         for g in st.flags:
             if g[0] == "top" and g[1] == "sub" and g[2] == peer and g[4] == self.self_box:
-                if g[5] == cnt:
+                if g[5] == cnt or g[5] == ABSENT:
                     got.add(g[3])
                 else:
                     eng.violate("SYM-3", "purge-amount", "the dying object's records are purged from a peer by %s instead of the recorded multiplicity" % (show(g[5]) if g[5] else "an unknown amount"), site, st)
